@@ -402,6 +402,9 @@ func init() {
 				{bD("$inc", bD("a.$[i].x", int32(1)), "$set", bD("a.$[i].y", int32(0))), []bson.D{bD("i.x", bD("$lte", int32(1)))}},
 				{bD("$unset", bD("a.$[i].x", ""), "$set", bD("a.$[i].z", true)), []bson.D{bD("i.x", bD("$exists", true))}},
 				{bD("$mul", bD("a.$[i]", int32(2)), "$inc", bD("a.$[j]", int32(1))), []bson.D{bD("i", bD("$lte", int32(1))), bD("j", bD("$gte", int32(2)))}},
+				// one operator, two paths: the first rewrites what the filter of the second looks at
+				{bD("$set", bD("a.$[].x", int32(10), "a.$[i].y", true)), []bson.D{bD("i.x", bD("$lt", int32(5)))}},
+				{bD("$inc", bD("a.$[i].x", int32(5), "a.$[i].y", int32(1))), []bson.D{bD("i.x", bD("$lte", int32(1)))}},
 				{bD("$set", bD("a.$[i].v", int32(1), "a.$[j].w", int32(1))), []bson.D{bD("i.x", int32(1)), bD("j.x", bD("$ne", int32(1)))}},
 				{bD("$set", bD("a.$[i].v", int32(1), "a.$[j].w", int32(1))), []bson.D{bD("i.x", int32(2)), bD("j.q", bD("$exists", false))}},
 				{bD("$set", bD("a.$[i].v", int32(1)), "$inc", bD("a.$[j].y", int32(1))), []bson.D{bD("i.x", int32(2)), bD("j.zz", nil)}},
